@@ -348,10 +348,12 @@ def _system_probe(program, folder, rep):
     NONE = ("attr", ("attr", ("global", "consts"), "P2PTableEntry"), "none")
     routed = (mk_cmp("Eq", ("comp", E, 1), NONE), False)
     okg = False
+    n_probe_stores = 0
     for n_, st, base, key, val in stores(G):
         if not (val[0] == "callv" and val[1][0] == "attr" and
                 val[1][2] == "get_chip_info"):
             continue
+        n_probe_stores += 1
         okg = val[2] == (CX, CY) and key in (("tuple", CX, CY),
                                               ("comp", E, 0))
         facts = G.all_facts(n_)
@@ -403,6 +405,12 @@ def _system_probe(program, folder, rep):
                                         "these rules read")
                 oks = oks and m["m"] == plain(want)
         okg = okg and oks
+    if not n_probe_stores and calls_in(gi, "get_chip_info"):
+        raise AnalysisError("get_system_info: what get_chip_info returns is "
+                            "not stored into the description under the "
+                            "chip's coordinates where it is obtained; how "
+                            "the probes are collected is not analysed in "
+                            "that form")
     rep.check(okg, "C14-R2", qual(gi), "every chip with a P2P route is "
               "probed under its own coordinates; unresponsive chips are "
               "skipped; size = largest routed coordinate + 1",
